@@ -14,7 +14,7 @@ MODULE = "CddVerif.Properties.C01"
 THEOREMS = [
     "C01.extract_nat_roundtrip", "C01.extract_neg_roundtrip", "C01.extract_bool_roundtrip", "C01.setDefaultDoc_int",
     "C01.setDefaultDoc_extract_int", "C01.emit_no_default_when_stripped", "C01.quote_unquote", "C01.unquote_quote_idem",
-    "C01.locate_emitted", "C01.hasParenAnnounce_false", "C01.extract_str_roundtrip", "C01.quote_good", "C01.parse_quoted_text",
+    "C01.locate_emitted", "C01.hasParenAnnounce_false", "C01.extract_str_roundtrip", "C01.quote_good", "C01.parse_quoted_text", "C01.extract_float_roundtrip", "C01.parse_float_text", "C01.takeDefault_float",
 ]
 STYLES = ("rest", "google", "numpydoc")
 
